@@ -25,4 +25,9 @@ TEXTS["C09"] = {
     "note": "Real monitor/metrics, pubsubmon and cluster.go publish loops from /repo. Time policy: +-1 h expiry in the model legs; the cadence leg uses wall-clock margins of at least 400 ms and requires 3 consecutive reproductions.",
     "technique": "model-based stateful property testing (rapid state machine) plus a timing-margin cadence observation",
 }
+TEXTS["C05"] = {
+    "level": "Stateful schedule exploration: generated scripts of track/untrack/recover instructions interleaved with harness-owned completion of the parked IPFS pin/unpin calls (order and outcome are part of the generated value) run on the real stateless tracker and operation tracker; at quiescence the model daemon's pin table is compared per CID with the last instruction (or an error status must be shown), and again strictly after a recover round with a healthy daemon. Exploration level: the environment's order is owned by the harness, interleavings inside the tracker are left to the Go scheduler.",
+    "note": "Real pintracker/stateless and optracker from /repo; the IPFS daemon is a model behind the IPFSConnector RPC service, the shared pinset a real dsstate. Trusts the model daemon's pin semantics (DESIGN C05).",
+    "technique": "model-based stateful property testing with harness-controlled completion order and fault injection (rapid state machine)",
+}
 PENDING = {}
